@@ -124,6 +124,7 @@ func DefaultConfig() Config {
 }
 
 type Run struct {
+	pools    map[*sync.Pool][]any // deterministic sync.Pool stand-ins (pool.go)
 	mu       sync.Mutex
 	Tape     *Tape
 	Rand     *Rand
